@@ -18,7 +18,12 @@ type entry struct {
 
 var registry = map[string]entry{
 	"C01": {"model_checking", checks.C01},
+	"C02": {"model_checking", checks.C02},
+	"C03": {"model_checking", checks.C03},
+	"C05": {"model_checking", checks.C05},
+	"C18": {"model_checking", checks.C18},
 	"C08": {"model_checking", checks.C08},
+	"C11": {"model_checking", checks.C11},
 	"C09": {"model_checking", checks.C09},
 }
 
